@@ -294,6 +294,7 @@ class Run(object):
         os.makedirs(os.path.join(REPLAYS, self.pid), exist_ok=True)
         seen = set()
         nprint = 0
+        per_clause = {}
         for v in new:
             k = v.key()
             if k in seen:
@@ -303,12 +304,14 @@ class Run(object):
             with open(path, "w") as f:
                 json.dump({"property": self.pid, "clause": v.clause, "sig": v.sig, "detail": v.detail,
                            "scenario": v.replay}, f, indent=1, default=str)
-            if nprint < 40:
+            per_clause[v.clause] = per_clause.get(v.clause, 0) + 1
+            if per_clause[v.clause] <= 8 and nprint < 80:        # every violated clause is shown, none floods the output
                 print("VIOLATION property=%s replay=%s clause=%s sig=%s detail=%s"
                       % (self.pid, path, v.clause, v.sig, json.dumps(v.detail, default=str)[:400]))
                 nprint += 1
         if len(seen) > nprint:
-            print("... %d further distinct violations suppressed" % (len(seen) - nprint))
+            print("... %d further distinct violations not printed (replay files written); per clause: %s"
+                  % (len(seen) - nprint, ", ".join("%s=%d" % kv for kv in sorted(per_clause.items()))))
         cov = {
             "states": self.states,
             "transitions": self.transitions,
